@@ -44,8 +44,14 @@ func VerifTxnSequence() {
 	undetermined := false // a Set ended without applying anything: may hold the datastore until the timeout at most
 	txn := 0
 	for i := 0; i < n; i++ {
-		op := verifrt.Choice("op", 8)
+		op := verifrt.Choice("op", 9)
 		setsBefore := env.tgt.Sets
+		same := false
+		if op == 8 {
+			// Set(valid) with ALWAYS THE SAME content: once it has been kept, submitting it
+			// again is a successful transaction whose diff towards the device is empty
+			op, same = 0, true
+		}
 		switch op {
 		case 0, 1, 2, 3: // Set: valid | invalid | dry-run | device-error
 			txn++
@@ -54,7 +60,11 @@ func VerifTxnSequence() {
 			if op == 3 {
 				env.tgt.FailSet = env.tgt.Sets + 1
 			}
-			rsp, err := env.ds.TransactionSet(ctx, id, v06Intent(env, op != 1, txn), nil, v06Timeout, op == 2)
+			content := txn
+			if same {
+				content = 0
+			}
+			rsp, err := env.ds.TransactionSet(ctx, id, v06Intent(env, op != 1, content), nil, v06Timeout, op == 2)
 			cancel()
 			env.tgt.FailSet = 0
 			verifrt.Reach("set-returned")
